@@ -21,7 +21,7 @@ const R0: i64 = 1_700_000_000_000_000_000;
 const M0: i64 = 5_000_000_000_000;
 const SEC: i64 = 1_000_000_000;
 
-static CHRONY_MODE: AtomicU8 = AtomicU8::new(0); // 0 answers at once, 1 absent (the request fails at once), 2 wedged (socket present, never replies), 3 slow (answers the first retransmission: 1.3 x the client's timeout)
+static CHRONY_MODE: AtomicU8 = AtomicU8::new(0); // 0 answers at once, 1 absent (the request fails at once), 2 wedged (socket present, never replies), 3 slow (answers the first retransmission: 1.3 x the client's timeout), 4 forbidden (the socket directory is not accessible: EACCES at once)
 static LAST_QUERY_NS: AtomicI64 = AtomicI64::new(0);
 static SHM_PATH: Mutex<Option<PathBuf>> = Mutex::new(None);
 
@@ -43,7 +43,11 @@ fn chrony_hook(_r: RequestBody, o: ClientOptions) -> std::io::Result<Reply> {
     };
     LAST_QUERY_NS.fetch_max(lat, Ordering::SeqCst);
     vclock::global_advance(lat);
-    let res = if mode == 1 || mode == 2 {
+    let res = if mode == 4 {
+        Err(std::io::Error::from_raw_os_error(libc::EACCES))
+    } else if mode == 1 {
+        Err(std::io::Error::from_raw_os_error(libc::ENOENT))
+    } else if mode == 2 {
         Err(std::io::Error::new(std::io::ErrorKind::TimedOut, "verif: chronyd does not answer"))
     } else {
         let spec = TrackSpec { ref_id: 0, leap: 0, ref_time_ns: R0 as i128, offset_bits: encode_float(0.001), delay_bits: encode_float(0.01), disp_bits: encode_float(0.01), interval_bits: encode_float(16.0) };
@@ -109,7 +113,7 @@ struct Scenario {
 impl Scenario {
     fn json(&self) -> Value {
         json!({"fault": self.fault.map(|f| json!({"thread": (["main", "poller", "writer"][f.thread.min(2)]), "opportunity": f.at, "kind": format!("{:?}", f.kind)})), "segment_uncreatable": self.startup_failure,
-               "chronyd": (["answers", "absent", "wedged", "slow"][self.chrony_mode.min(3) as usize]), "abort_broadcast_reversed": self.reverse_keys, "unfair_timeouts_allowed": self.unfair_budget})
+               "chronyd": (["answers", "absent", "wedged", "slow", "forbidden"][self.chrony_mode.min(4) as usize]), "abort_broadcast_reversed": self.reverse_keys, "unfair_timeouts_allowed": self.unfair_budget})
     }
     fn from_json(v: &Value) -> Scenario {
         let fault = if v["fault"].is_null() {
@@ -117,7 +121,7 @@ impl Scenario {
         } else {
             Some(Fault { thread: if v["fault"]["thread"] == "poller" { 1 } else { 2 }, at: v["fault"]["opportunity"].as_u64().unwrap() as usize, kind: if v["fault"]["kind"] == "Panic" { FaultKind::Panic } else { FaultKind::Return } })
         };
-        Scenario { fault, startup_failure: v["segment_uncreatable"].as_bool().unwrap_or(false), chrony_mode: match v["chronyd"].as_str() { Some("absent") => 1, Some("wedged") => 2, Some("slow") => 3, _ => 0 }, reverse_keys: v["abort_broadcast_reversed"].as_bool().unwrap_or(false), unfair_budget: v["unfair_timeouts_allowed"].as_u64().unwrap_or(0) as usize }
+        Scenario { fault, startup_failure: v["segment_uncreatable"].as_bool().unwrap_or(false), chrony_mode: match v["chronyd"].as_str() { Some("absent") => 1, Some("wedged") => 2, Some("slow") => 3, Some("forbidden") => 4, _ => 0 }, reverse_keys: v["abort_broadcast_reversed"].as_bool().unwrap_or(false), unfair_budget: v["unfair_timeouts_allowed"].as_u64().unwrap_or(0) as usize }
     }
 }
 
@@ -156,7 +160,7 @@ fn run_once_h(sc: &Scenario, prefix: Vec<usize>, dir: &Path, horizon_ns: i64, lo
     sched::finish_main();
     let t0 = vclock::raw_now_s();
     while !sched::all_finished() {
-        std::thread::sleep(std::time::Duration::from_micros(20));
+        crate::common::vclock::real_sleep(std::time::Duration::from_micros(20));
         if vclock::raw_now_s() - t0 > 10.0 {
             machinery_failure(&format!("tear-down of an execution did not complete (scenario {}, thread states {:?})", sc.json(), rep.waiting));
         }
@@ -391,7 +395,7 @@ pub fn run(ctx: &Ctx) -> i32 {
     // probe: fault-free default schedule, to enumerate each worker's fault opportunities
     let mut scenarios: Vec<Scenario> = vec![];
     let mut opp_catalogue = json!({});
-    for mode in [0u8, 1, 2, 3] {
+    for mode in [0u8, 1, 2, 3, 4] {
         let probe_sc = Scenario { fault: None, startup_failure: false, chrony_mode: mode, reverse_keys: false, unfair_budget: 0 };
         // the probe runs the first h+1 poller iterations only: faults are placed inside that window
         let probe = run_once_h(&probe_sc, vec![], &base, M0 + h * (match mode { 2 => 4 * SEC, 3 => 3 * SEC, _ => SEC }) + SEC / 2, false);
@@ -400,7 +404,7 @@ pub fn run(ctx: &Ctx) -> i32 {
         }
         for t in [1usize, 2] {
             let labels = probe.rep.opp_labels.get(t).cloned().unwrap_or_default();
-            opp_catalogue[format!("{} (chronyd {})", if t == 1 { "poller" } else { "writer" }, ["answers", "absent", "wedged", "slow"][mode as usize])] = json!(labels);
+            opp_catalogue[format!("{} (chronyd {})", if t == 1 { "poller" } else { "writer" }, ["answers", "absent", "wedged", "slow", "forbidden"][mode as usize])] = json!(labels);
             for (k, l) in labels.iter().enumerate() {
                 for kind in [FaultKind::Panic, FaultKind::Return] {
                     if kind == FaultKind::Return && !l.contains("return") {
